@@ -85,7 +85,9 @@ Cmt(text, sp, sn) == [k |-> "cmt", text |-> text, sp |-> sp, sn |-> sn]
 IsIdent(s) == s \in {"a", "b", "c", "d", "f", "g", "i", "j", "x", "y", "z", "m", "nil", "..", "key", "k1", "e3", "_x"}
 RECURSIVE WF(_)
 WFSeq(s) == \A i \in 1..Len(s) : WF(s[i])
-\* a bare `return` can only be the last statement of a list (the parser rejects `return;`)
+\* a bare `return` can only be the last statement of a list (the parser rejects `return;`).  WF is what the tree
+\* generators rely on; whether the REAL parser produces more than this is not assumed anywhere: the source-level family
+\* (GenSources) hands texts such as `return` newline `a` to the real parser and judges whatever tree comes out.
 WFList(s) == WFSeq(s) /\ \A i \in 1..Len(s) : (s[i].k = "ret" /\ s[i].e.k = "none") => i = Len(s)
 WF(t) ==
   CASE t.k \in {"none", "brk", "cnt", "int", "float", "bool", "raw"} -> TRUE
